@@ -82,11 +82,35 @@ def B(b):
     return hexb(b)
 
 
-def render_rb(rb, order=None):
+def render_rb(rb, order=None, r=None, style="canon"):
     calls = [("fl", rb["fl"]), ("cl", rb["cl"]), ("esn", rb["esn"]), ("jit", rb["jit"]),
              ("lsr", rb["lsr"]), ("dlsr", rb["dlsr"])]
     if order:
         calls = order(calls)
+    if r is not None and style in ("shuffle", "repeat", "probe"):
+        r.shuffle(calls)
+        if style == "repeat":
+            # every setter preceded, somewhere earlier, by the same setter with another value
+            decoys = [(k, r.choice([0, 1, 0xffffff, 0x1000000, 0xffffffff, r.getrandbits(32)]) if k != "fl" else r.getrandbits(8)) for k, _ in calls]
+            r.shuffle(decoys)
+            merged = []
+            pending = list(calls)
+            for d in decoys:
+                merged.append(d)
+                # the real call of this setter may come any time after its decoy
+            # interleave: decoy of k must precede the real call of k
+            out = []
+            real = {k: v for k, v in calls}
+            order_ = [("d", k, v) for k, v in decoys] + [("r", k, real[k]) for k, _ in calls]
+            r.shuffle(order_)
+            seen = set()
+            late = []
+            for kind, k, v in order_:
+                if kind == "d": out.append((k, v)); seen.add(k)
+                elif k in seen: out.append((k, v))
+                else: late.append((k, v))
+            # real calls that came before their decoy go last (after the decoy)
+            calls = out + late
     return "(rb %d%s)" % (rb["ssrc"], "".join(f" ({k} {v})" for k, v in calls))
 
 
@@ -205,7 +229,7 @@ def render(cfg, r=None, style="canon"):
             nm = "reason_owned" if style == "owned" else cfg.get("reason_call", "reason")
             setters.append(f"({nm} {B(cfg['reason'])})")
     elif k in ("rr", "sr"):
-        adders = [f"(add_report_block {render_rb(rb)})" for rb in cfg.get("rbs", [])]
+        adders = [f"(add_report_block {render_rb(rb, r=r, style=style)})" for rb in cfg.get("rbs", [])]
     elif k == "sdes":
         adders = [f"(add_chunk {render_chunk(ch, set(range(len(ch['items']))) if style == 'owned' else ())})"
                   for ch in cfg.get("chunks", [])]
@@ -265,8 +289,8 @@ def r_rb(r, legal=True):
     cl = r.choice([0, 1, 0xff, 0x100, 0xffff, 0x10000, 0xffffff, r.getrandbits(24)])
     if not legal:
         cl = r.choice([0x1000000, 0xffffffff, 0x80000000, 0x1000000 + r.getrandbits(24)])
-    return {"ssrc": r_u32(r), "fl": r_u8(r), "cl": cl, "esn": r_u32(r), "jit": r_u32(r), "lsr": r_u32(r),
-            "dlsr": r_u32(r)}
+    return {"ssrc": r_u32(r), "fl": r_u8(r), "cl": cl, "esn": r_u32(r), "jit": r_u32(r),
+            "lsr": 0 if r.random() < 0.25 else r_u32(r), "dlsr": 0 if r.random() < 0.15 else r_u32(r)}
 
 
 def r_count(r, lim=31):
@@ -385,8 +409,11 @@ def r_nack(r):
         b = r_u16(r); gap = r.choice([16, 17, 18, 1, 2, 33]); seqs = [(b + i * gap) % 65536 for i in range(r.randint(1, 12))]
     elif x < 0.6:
         seqs = [0, 65535] + [r_u16(r) for _ in range(r.randint(0, 6))]
-    else:
+    elif x < 0.93:
         seqs = [r_u16(r) for _ in range(r.randint(1, 20))]
+    else:
+        # many words: one sequence number every 17+ so that each needs a word of its own
+        b0 = r_u16(r); seqs = [(b0 + i * r.choice([17, 18, 40])) % 65536 for i in range(r.choice([63, 64, 65, 100, 300]))]
     if r.random() < 0.3 and seqs:
         seqs = seqs + [r.choice(seqs) for _ in range(r.randint(1, 3))]   # duplicates
     if r.random() < 0.5:
@@ -398,6 +425,8 @@ def r_fir(r):
     x = r.random()
     n = 0 if x < 0.08 else 1 if x < 0.4 else r.randint(2, 8)
     ents = [(r_u32(r), r_u8(r)) for _ in range(n)]
+    if ents and r.random() < 0.12:
+        ents[r.randrange(len(ents))] = (0, 0)
     if ents and r.random() < 0.3:
         ents.append((r.choice(ents)[0], r_u8(r)))    # re-add: last wins
     return {"k": "fir", "entries": ents}
